@@ -245,6 +245,41 @@ def eval_cases(tag: str, header: str, case_terms: list[str], check_fn: str = "ch
     return sorted(bad), errors
 
 
+import contextlib
+
+
+@contextlib.contextmanager
+def debug_logging():
+    """DEBUG level on the library's loggers for the duration of one case (records go to a NullHandler).
+    Code under `if _logger.isEnabledFor(logging.DEBUG)` and the argument expressions of debug calls run; the
+    property must hold whatever the log level is."""
+    import logging
+    prev = logging.root.manager.disable
+    logging.disable(logging.NOTSET)
+    lg = logging.getLogger("frequenz")
+    old_level, old_prop, h = lg.level, lg.propagate, logging.NullHandler()
+    lg.setLevel(logging.DEBUG)
+    lg.propagate = False
+    lg.addHandler(h)
+    logging.root.addHandler(h)      # keeps other libraries' records away from the last-resort stderr handler
+    try:
+        yield
+    finally:
+        logging.root.removeHandler(h)
+        lg.removeHandler(h)
+        lg.setLevel(old_level)
+        lg.propagate = old_prop
+        logging.disable(prev)
+
+
+def run_case(st, case):
+    """Run one case on the implementation; cases flagged `debug_log` run with debug logging enabled."""
+    if isinstance(case, dict) and case.get("debug_log"):
+        with debug_logging():
+            return st.run_impl(case)
+    return st.run_impl(case)
+
+
 def eval_show(tag: str, header: str, term: str) -> str:
     """Evaluate one term inside Coq and return Coq's printed answer (for replays)."""
     CASES.mkdir(exist_ok=True)
@@ -410,12 +445,20 @@ def run_property(pid: str, props_file: str, streams: list[Stream], tier: str, se
             if replay_case.get("stream", st.name) == st.name:
                 cases = [replay_case["case"]]
         else:
-            cases += list(st.gen(rng, tier))
+            gen_cases = list(st.gen(rng, tier))
+            # a configuration dimension shared by all streams: one generated case in eight runs with the library's
+            # loggers at DEBUG level (the flag travels with the case, so replays reproduce it)
+            if getattr(st, "debug_log_dimension", True):
+                drng = random.Random(f"{seed}:{st.name}:debug_log")
+                for c in gen_cases:
+                    if isinstance(c, dict) and "debug_log" not in c and drng.random() < 0.125:
+                        c["debug_log"] = True
+            cases += gen_cases
         obs_list, terms, term_idx = [], [], []
         oracle_hits = []
         for i, c in enumerate(cases):
             try:
-                obs = st.run_impl(c)
+                obs = run_case(st, c)
             except Exception as exc:  # the implementation (or its driver) blew up on this case
                 import traceback
                 tb = traceback.format_exc().strip().splitlines()
@@ -464,7 +507,7 @@ def run_property(pid: str, props_file: str, streams: list[Stream], tier: str, se
             if v["what"].startswith("crash:"):
                 def crashes(cc):
                     try:
-                        st.run_impl(cc)
+                        run_case(st, cc)
                     except Exception:
                         return True
                     return False
@@ -475,8 +518,8 @@ def run_property(pid: str, props_file: str, streams: list[Stream], tier: str, se
                 reported += 1
                 continue
             c = _shrink(st, cases[i], lambda cc: any(x.get("finding") == fid and x["what"].split(":")[0] == v["what"].split(":")[0]
-                                                     for x in st.oracle(cc, st.run_impl(cc))))
-            o = st.run_impl(c)
+                                                     for x in st.oracle(cc, run_case(st, cc))))
+            o = run_case(st, c)
             what = next((x["what"] for x in st.oracle(c, o)), v["what"])
             verdict_violations.append(({"property": pid, "kind": "oracle", "stream": st.name, "case": c, "impl_obs": o,
                                         "what": what, "seed": seed,
@@ -487,14 +530,14 @@ def run_property(pid: str, props_file: str, streams: list[Stream], tier: str, se
             i = term_idx[bad[0]]
 
             def disagrees(cc):
-                oo = st.run_impl(cc)
+                oo = run_case(st, cc)
                 tt = st.to_coq(cc, oo)
                 if tt is None:
                     return False
                 b, e = eval_cases(f"{pid}_{st.name}_shr", st.coq_header, [tt], st.check_fn)
                 return bool(b) and not e
             c = _shrink(st, cases[i], disagrees, budget=25)
-            o = st.run_impl(c)
+            o = run_case(st, c)
             show = st.show_term(c, o)
             model_out = eval_show(f"{pid}_{st.name}", st.coq_header, show) if show else None
             corr_broken.append(f"{st.name}: model and implementation disagree on {len(bad)} of {len(terms)} cases")
